@@ -23,7 +23,8 @@ structure Fresh (s : State) (id : Nat) : Prop where
   nf  : id ∉ s.nfEarly
 
 /-- the repaired configuration -/
-def Cfg.fixed (c : Cfg) : Prop := c.fixA = true ∧ c.fixB = true ∧ c.fixC = true
+def Cfg.fixed (c : Cfg) : Prop :=
+  c.fixA = true ∧ c.fixB = true ∧ c.fixC = true ∧ c.fixD = true ∧ c.fixE = true
 
 instance (c : Cfg) : Decidable c.fixed := by unfold Cfg.fixed; infer_instance
 
@@ -41,6 +42,7 @@ structure TaskInv (s : State) : Prop where
   noPicked : ∀ w t, s.pc w ≠ .picked t
   deadLt   : ∀ id, (id ∈ s.ranIds ∨ id ∈ s.cancelled ∨ id ∈ s.dropped ∨ id ∈ s.nfEarly) → id < s.nextTask
   ranExcl  : ∀ id ∈ s.ranIds, id ∉ s.cancelled ∧ id ∉ s.dropped ∧ id ∉ s.nfEarly
+  canDrp   : ∀ id ∈ s.cancelled, id ∉ s.dropped
 
 @[simp] theorem setPc_pc (s : State) (w : Nat) (p : PC) (i : Nat) :
     (setPc s w p).pc i = if i = w then p else s.pc i := rfl
@@ -65,6 +67,9 @@ structure TaskInv (s : State) : Prop where
 @[simp] theorem setPc_cbs (s : State) (w : Nat) (p : PC) : (setPc s w p).cbs = s.cbs := rfl
 @[simp] theorem setPc_crashed (s : State) (w : Nat) (p : PC) : (setPc s w p).crashed = s.crashed := rfl
 @[simp] theorem setPc_picks (s : State) (w : Nat) (p : PC) : (setPc s w p).picks = s.picks := rfl
+@[simp] theorem setPc_exiting (s : State) (w : Nat) (p : PC) : (setPc s w p).exiting = s.exiting := rfl
+@[simp] theorem setPc_pend (s : State) (w : Nat) (p : PC) : (setPc s w p).pend = s.pend := rfl
+@[simp] theorem setPc_idle (s : State) (w : Nat) (p : PC) : (setPc s w p).idle = s.idle := rfl
 @[simp] theorem setPc_joined (s : State) (w : Nat) (p : PC) : (setPc s w p).joined = s.joined := rfl
 
 theorem Fresh.of_eq {s s' : State} {id : Nat} (h : Fresh s id) (h1 : s'.ran = s.ran)
@@ -98,6 +103,7 @@ theorem TaskInv.weaken {s s' : State} (h : TaskInv s) (h0 : s'.cfg = s.cfg) (h1 
   · intro i t hi; exact h.noPicked i t (key i t (by rw [hi]; rfl) ▸ hi)
   · rw [hr, h6, h7, h8, h4]; exact h.deadLt
   · rw [hr, h6, h7, h8]; exact h.ranExcl
+  · rw [h6, h7]; exact h.canDrp
 
 theorem TaskInv.of_eq {s s' : State} (h : TaskInv s) (h0 : s'.cfg = s.cfg) (h1 : s'.undo = s.undo)
     (h2 : s'.doing = s.doing) (h3 : s'.pc = s.pc) (h4 : s'.nextTask = s.nextTask) (h5 : s'.ran = s.ran)
